@@ -863,6 +863,10 @@ class AbsExec:
         self.uvars: Dict[str, Any] = {}
         self.events: List[Tuple[str, Any]] = []
         self.writes: List[Tuple[str, N, RoleKey]] = []
+        # ordered log of what this abstract path did to the transaction and to the tracked rows:
+        # ('write', routine, statement, role key) | ('txn', routine, statement)  -- statement order with CALLed routines inlined
+        self.trace: List[Tuple[Any, ...]] = []
+        self.track_txn = False  # when set, a guard that cannot be decided and whose branches contain transaction statements is an analysis error (instead of being skipped)
         self.max_call_depth = max_call_depth
         self.tolerate: Set[str] = set()  # tables whose mis-selected writes are recorded as events and skipped (they are another rule's business)
         self._tk = tuple(sorted(scn.tracked))
@@ -1006,8 +1010,19 @@ class AbsExec:
             _STATIC[key] = r
         return r
 
+    def _has_txn(self, stmts: Sequence[N], depth: int = 0) -> bool:
+        """Does the block (CALLed routines included) contain a transaction statement?"""
+        for st in sf.all_statements(stmts):
+            if st.kind == 'txn':
+                return True
+            if st.kind == 'call':
+                cal = self.prog.routines.get(st.name)
+                if cal is not None and depth <= self.max_call_depth and self._has_txn(cal.ast.body, depth + 1):
+                    return True
+        return False
+
     def _relevant(self, stmts: Sequence[N]) -> bool:
-        return self._effectful(stmts) or any(st.kind in ('leave', 'iterate', 'return') for st in sf.all_statements(stmts))
+        return self._effectful(stmts) or any(st.kind in ('leave', 'iterate', 'return') or (self.track_txn and st.kind == 'txn') for st in sf.all_statements(stmts))
 
     def _assign(self, target: N, val: Any, frame: Frame) -> None:
         if target.kind == 'uvar':
@@ -1083,6 +1098,7 @@ class AbsExec:
         elif k == 'call':
             self._exec_call(st, frame, depth)
         elif k == 'txn':
+            self.trace.append(('txn', frame.routine, st))
             if st.what == 'ROLLBACK':
                 self.rows = {k2: dict(v) for k2, v in self.snapshot.items()}
             else:
@@ -1219,7 +1235,11 @@ class AbsExec:
                         raise AnalysisError(f'{frame.routine}: `{text(st)[:70]}` also writes {sel.insts[ta].table}')
                     continue
                 row[parts[-1]] = self.value_or_unk(v, frame, rowenv)
-            self.writes.append((frame.routine, st, rk))
+            self.record_write(frame.routine, st, rk)
+
+    def record_write(self, routine: str, st: N, rk: RoleKey) -> None:
+        self.writes.append((routine, st, rk))
+        self.trace.append(('write', routine, st, rk))
 
     def _exec_if(self, st: N, frame: Frame, depth: int) -> None:
         for i, (c, body) in enumerate(st.branches):
@@ -1242,6 +1262,8 @@ class AbsExec:
         """A loop that writes tracked rows must be the canonical cursor walk: FETCH first, leave exactly when the NOT FOUND handler has
         fired, no state carried from one iteration to the next.  Its body is then executed ONCE for a generic element of the cursor."""
         if not self._effectful(st.body):
+            if self.track_txn and self._has_txn(st.body):
+                raise AnalysisError(f'{frame.routine}: a loop that writes no tracked row contains transaction statements (how often it commits is outside the abstraction)')
             self._havoc(st.body, frame)
             return
         label = (getattr(st, 'label', None) or '').lower()
@@ -1300,7 +1322,10 @@ class AbsExec:
         if r is None:
             raise AnalysisError(f'{frame.routine}: CALL of unknown routine {st.name}')
         a = r.ast
-        if depth >= self.max_call_depth or not self._effectful(a.body):
+        txn_inside = self.track_txn and self._has_txn(a.body, depth + 1)
+        if depth >= self.max_call_depth and txn_inside:
+            raise AnalysisError(f'{frame.routine}: CALL {st.name} issues transaction statements beyond the call depth the abstraction inlines')
+        if depth >= self.max_call_depth or not (self._effectful(a.body) or txn_inside):
             self._havoc([st], frame)
             return
         if len(a.params) != len(st.args):
@@ -1727,7 +1752,7 @@ def commit_scenario(prog: sf.SqlProgram) -> Tuple[Scenario, Dict[str, Any]]:
             if len(parts) > 1 and parts[-2] not in (jga, 'job_groups'):
                 raise AnalysisError(f'UPDATE target {text(c)}')
             row[parts[-1]] = ex.value_or_unk(v, frame, rowenv)
-        ex.writes.append((frame.routine, st, ('job_groups', 'staged')))
+        ex.record_write(frame.routine, st, ('job_groups', 'staged'))
         return True
     scn.update_hooks.append(groups_update)
 
@@ -1795,7 +1820,7 @@ def commit_scenario(prog: sf.SqlProgram) -> Tuple[Scenario, Dict[str, Any]]:
                     continue
                 raise AnalysisError(f'UPDATE target {text(c)}')
             row[parts[-1]] = ex.value_or_unk(v, frame, rowenv)
-        ex.writes.append((frame.routine, st, ('jobs', 'child')))
+        ex.record_write(frame.routine, st, ('jobs', 'child'))
         return True
     scn.update_hooks.append(recount)
     return scn, {'B': B, 'U': U, 'S': S, 'CH': CH, 'SG': SG, 'SS': Lin({'one_row': 1, 'other_rows': 1}, 0)}
